@@ -13,6 +13,16 @@ Theorem C35_ent_small_ok : ent_ok ent_small.
 Proof. exact ent_small_ok. Qed.
 Print Assumptions C35_ent_small_ok.
 
+(* ... and so does the full table of html/entity.go (2229 names, regenerated from the toolchain's
+   source on every run), which is what the check evaluates the decoder model with. *)
+Theorem C35_ent_full_ok : ent_ok ent_full.
+Proof. exact ent_full_ok. Qed.
+Print Assumptions C35_ent_full_ok.
+
+Theorem C35_longest_entity_constant_now : longest_ok = true.
+Proof. reflexivity. Qed.
+Print Assumptions C35_longest_entity_constant_now.
+
 (* !escurl undoes escurl for every byte string. *)
 Theorem C35_url_roundtrip : forall s, wf_bytes s = true -> url_unescape (url_escape s) = Ok s.
 Proof. exact url_roundtrip. Qed.
